@@ -89,7 +89,8 @@ def cases(shape_p, shape_q):
         out.append(T(ref_of('P', g), 'D', '40 uL'))           # more than the emptier wells hold
         for what in ('water', 'SOLID'):
             out.append({'op': 'remove', 'obj': ref_of('P', g), 'what': what})
-        for q in ('200 uL', '0.1 g', '20 uL'):
+        # '0.38 g' of tea read as pure solvent would be 523 uL (> the 500 uL wells); the fuller wells really end below 500 uL
+        for q in ('200 uL', '0.1 g', '20 uL', '0.38 g'):
             out.append({'op': 'fill_to', 'obj': ref_of('P', g), 'solvent': 'tea', 'q': q})
     for g1, g2 in itertools.product(gp, gq):
         for q in ('3 uL', '1 mg'):
